@@ -1,5 +1,6 @@
 import AkVerif.Model.Proto
 import AkVerif.Model.Templates
+import AkVerif.Model.TemplatesLL
 /-!
 Line-protocol driver of C05 (stateful: `g` installs a cleanuper, `cl`/`cf` use it).
 
@@ -126,6 +127,33 @@ def parseKvs : Nat → Nat → Toks → Option (List (Val × Val) × Toks)
     | none => none
 end
 
+/-- `name` | `X [ excluded ]` … up to the end of the line -/
+def parseSymArgs : Nat → Toks → List SymArg → Option (List SymArg)
+  | 0, _, _ => none
+  | _ + 1, [], acc => some acc.reverse
+  | fuel + 1, "X" :: r, acc =>
+    match parseNames fuel r with
+    | some (ex, r') => parseSymArgs fuel r' (SymArg.anyExcept ex :: acc)
+    | none => none
+  | fuel + 1, t :: r, acc =>
+    match parseName t with
+    | some n => parseSymArgs fuel r (SymArg.sym n :: acc)
+    | none => none
+
+/-- `N` | `[ names ]` | `X [ excluded ]` … up to the end of the line -/
+def parseProdArgs : Nat → Toks → List ProdArg → Option (List ProdArg)
+  | 0, _, _ => none
+  | _ + 1, [], acc => some acc.reverse
+  | fuel + 1, "N" :: r, acc => parseProdArgs fuel r (ProdArg.empty :: acc)
+  | fuel + 1, "X" :: r, acc =>
+    match parseNames fuel r with
+    | some (ex, r') => parseProdArgs fuel r' (ProdArg.anyExcept ex :: acc)
+    | none => none
+  | fuel + 1, ts, acc =>
+    match parseNames fuel ts with
+    | some (p, r') => parseProdArgs fuel r' (ProdArg.tuple p :: acc)
+    | none => none
+
 def parseListArgs : Toks → Option (ListArgs × Name × Toks)
   | o :: i :: d :: c :: afd :: opt :: res :: r =>
     match parseOptName o, parseName i, parseOptName d, parseOptName c, parseOptBool afd,
@@ -173,13 +201,51 @@ def parseTemplates : Nat → Toks → List (Name × Template) → Option (Except
 
 structure St where
   cl : Option Cleanuper := none
-  prods : Prods := []
+  prods : Templates.Prods := []
   last : Option Val := none
+  tp : Option TParser := none
+  raw : List (Name × List Char) := []
+
+def splitOnSemi (ts : Toks) : List Toks :=
+  (ts.foldr (fun t (acc : List Toks) =>
+    if t = ";" then [] :: acc else
+    match acc with
+    | [] => [[t]]
+    | c :: r => (t :: c) :: r) [[]]).filter (fun c => !c.isEmpty)
+
+def parseEntry (fuel : Nat) : Toks → Option (Name × GramEntry)
+  | "P" :: s :: r =>
+    match parseName s, parseProdArgs fuel r [] with
+    | some s, some ps => some (s, .plain ps)
+    | _, _ => none
+  | "S" :: s :: r =>
+    match parseName s, parseSymArgs fuel r [] with
+    | some s, some a => some (s, .seq a)
+    | _, _ => none
+  | "L" :: r =>
+    match parseListArgs r with
+    | some (a, res, []) => some (res, .list a)
+    | _ => none
+  | "M" :: r =>
+    match parseMapArgs r with
+    | some (a, res, []) => some (res, .map a)
+    | _ => none
+  | _ => none
+
+def parsePairs : Toks → Option (List (Name × List Char))
+  | [] => some []
+  | a :: b :: r =>
+    match parseName a, parseCps b, parsePairs r with
+    | some a, some b, some r => some ((a, b) :: r)
+    | _, _, _ => none
+  | _ => none
+
+def llFuel : Nat := 20000000
 
 def sortNames (l : List Name) : List Name :=
   (l.toArray.qsort (fun a b => a < b)).toList
 
-def tplProds (ts : List (Name × Template)) : Prods :=
+def tplProds (ts : List (Name × Template)) : Templates.Prods :=
   ts.flatMap fun (_, t) => match t with
     | .list o => o.genProds
     | .map o => o.genProds
@@ -201,10 +267,24 @@ def handle (st : St) (line : String) : St × String :=
         | .ok o => showMapTpl o
         | .error e => "err " ++ e.name)
     | _ => (st, "bad-op")
-  | "sp" :: res :: r =>
-    match parseName res, r.mapM parseName with
-    | some res, some syms => (st, "ok P " ++ showProds (seqGenProds res syms))
+  | "sp" :: res :: "T" :: r =>
+    match parseName res, parseNames fuel r with
+    | some res, some (terms, r') =>
+      match parseSymArgs fuel r' [] with
+      | some args => (st, match seqSymbols terms args with
+          | .ok syms => "ok P " ++ showProds (seqGenProds res syms)
+          | .error e => "err " ++ e.name)
+      | none => (st, "bad-op")
     | _, _ => (st, "bad-op")
+  | "pr" :: "T" :: r =>
+    match parseNames fuel r with
+    | some (terms, r') =>
+      match parseProdArgs fuel r' [] with
+      | some args => (st, match prodRules terms args false with
+          | .ok rules => "ok " ++ String.join (rules.map fun r => showNames r ++ " ")
+          | .error e => "err " ++ e.name)
+      | none => (st, "bad-op")
+    | none => (st, "bad-op")
   | "sq" :: r =>
     match parseVal fuel r with
     | some (v, []) => (st, showExcept showVal (flattenSeq v))
@@ -226,6 +306,37 @@ def handle (st : St) (line : String) : St × String :=
         | _ => (st, "bad-op")
       | _, _ => (st, "bad-op")
     | _ => (st, "bad-op")
+  | "G" :: smart :: start :: "keep" :: r =>
+    match parseName start, parseNames fuel r with
+    | some start, some (keep, "groups" :: r1) =>
+      match parseNames fuel r1 with
+      | some (groups, "syn" :: r2) =>
+        match parseNames fuel r2 with
+        | some (synl, "T" :: r3) =>
+          match parseNames fuel r3 with
+          | some (torder, "E" :: r4) =>
+            let rec pairUp : List Name → List (Name × Name)
+              | a :: b :: r => (a, b) :: pairUp r
+              | _ => []
+            match (splitOnSemi r4).mapM (parseEntry fuel) with
+            | some entries =>
+              match constructT groups (pairUp synl) none start (smart = "1") keep torder entries with
+              | .ok T => ({ st with tp := some T, raw := [] },
+                  "ok squash " ++ showNames (sortNames T.cl.squash) ++ " choice " ++ showNames (sortNames T.cl.choice))
+              | .error e => ({ st with tp := none }, "err " ++ e.name)
+            | none => (st, "bad-op")
+          | _ => (st, "bad-op")
+        | _ => (st, "bad-op")
+      | _ => (st, "bad-op")
+    | _, _ => (st, "bad-op")
+  | "tp" :: r =>
+    match st.tp, parsePairs r with
+    | some T, some raw => ({ st with raw := raw }, showExcept showVal (T.parseRaw raw llFuel))
+    | _, _ => (st, "bad-op")
+  | ["tc"] =>
+    match st.tp with
+    | some T => (st, showExcept showVal (T.parseClean st.raw llFuel))
+    | none => (st, "bad-op")
   | "cl" :: r =>
     match st.cl, parseVal fuel r with
     | some cl, some (v, []) => ({ st with last := some v }, showExcept showVal (cleanupRoot cl v))
